@@ -3,14 +3,21 @@
    with what the real contract did (ok/err, cw2 info and slots afterwards, whether the
    factory parameters / anything else changed). *)
 From Coq Require Import String.
-From LP Require Import Semver Migrate.
+From LP Require Import Semver Migrate Params MigrateParams C18Corr.
 Local Open Scope N_scope.
 
 Inductive c20_case :=
 | CParse (s : string) (v : option version)
 | CCmp (a b : version) (lt : bool)
 | CMig (c : contract) (now : N) (msg : option fmsg) (pre : cstate) (ok : bool) (post : cstate)
-       (params_changed rest_unchanged : bool).
+       (params_changed rest_unchanged : bool)
+(* a factory migration with its parameters: stored cw2 info and parameters, the optional
+   message, then ok/err, the cw2 info and the Params{} answer afterwards, and whether
+   anything else in raw storage moved *)
+| CMigBase (now : N) (pre : cstate) (p : cparams) (msg : option cmsg) (ok : bool) (post : cstate) (p' : cparams) (rest_unchanged : bool)
+| CMigVending (now : N) (pre : cstate) (p : vparams) (msg : option vmsg) (ok : bool) (post : cstate) (p' : vparams) (rest_unchanged : bool)
+| CMigOE (now : N) (pre : cstate) (p : oparams) (msg : option omsg) (ok : bool) (post : cstate) (p' : oparams) (rest_unchanged : bool)
+| CMigTM (now : N) (pre : cstate) (p : tparams) (msg : option tmsg) (ok : bool) (post : cstate) (p' : tparams) (rest_unchanged : bool).
 
 Definition slots_eqb (a b : slots) : bool :=
   option_eqb N.eqb (s_last_discount a) (s_last_discount b) &&
@@ -24,8 +31,23 @@ Definition state_eqb (a b : cstate) : bool :=
   String.eqb (c_name a) (c_name b) && String.eqb (c_version a) (c_version b) &&
   slots_eqb (c_slots a) (c_slots b).
 
+Definition fmig_check {P} (peqb : P -> P -> bool) (r : result (cstate * P))
+           (pre : cstate) (p : P) (ok : bool) (post : cstate) (p' : P) (rest : bool) : bool :=
+  match r with
+  | Ok (st', q) => ok && state_eqb st' post && peqb q p' && rest
+  | Err => negb ok && state_eqb pre post && peqb p p' && rest
+  end.
+
 Definition c20_check (x : c20_case) : bool :=
   match x with
+  | CMigBase now pre p msg ok post p' rest =>
+      fmig_check cparams_eqb (base_factory_migrate now pre p msg) pre p ok post p' rest
+  | CMigVending now pre p msg ok post p' rest =>
+      fmig_check vparams_eqb (vending_factory_migrate now pre p msg) pre p ok post p' rest
+  | CMigOE now pre p msg ok post p' rest =>
+      fmig_check oparams_eqb (oe_factory_migrate now pre p msg) pre p ok post p' rest
+  | CMigTM now pre p msg ok post p' rest =>
+      fmig_check tparams_eqb (tm_factory_migrate now pre p msg) pre p ok post p' rest
   | CParse s v => option_eqb ver_eqb (parse_version s) v
   | CCmp a b lt => Bool.eqb (ver_ltb a b) lt
   | CMig c now msg pre ok post pch rest =>
